@@ -254,7 +254,7 @@ func wswriteRun(script []string, w *bufio.Writer) {
 	var (
 		s   *websocket.Stream
 		ms  *memStream
-		kr  = &wswKeyReader{r: newRng(uint64(len(script))*7919 + 17)}
+		kr  = &wswKeyReader{r: newRng(0x5eed)} // keys depend only on how many were drawn before: shrinking a script keeps the earlier ones
 		cbs []string
 	)
 	rand.Reader = kr
